@@ -61,6 +61,11 @@ def _case_h1(rng, tier, n, exhaustive_split=None):
         if exhaustive_split is not None:
             sizes = [0, 1, 5, 40]
         req = G.gen_request(rng, tag, version, tier, body_sizes=sizes)
+        if version == "1.1" and len(req["body"]) > 0 and rng.random() < 0.08:
+            # an h2c upgrade offer on a request that carries a body is ignored by the server: the request is served as HTTP/1.1, body and all
+            extra = [(b"Connection", b"Upgrade, HTTP2-Settings"), (b"Upgrade", b"h2c"), (b"HTTP2-Settings", b"AAMAAABkAAQAAP__")]
+            req["headers"] = list(req["headers"]) + extra
+            req["ows"] = list(req.get("ows") or []) + [b" "] * len(extra)
         pace, script = _app_script(rng, tag)
         by_tag[str(tag)] = script
         paces.append(pace)
@@ -218,7 +223,14 @@ def gen_cases(rng, tier):
 
 
 def gen(rng, tier):
-    return gen_cases(rng, tier)
+    # "every relative timing between reads and application progress": for a share of the cases the pieces of a segmented write do not
+    # wait for the server to come to rest but arrive a few scheduler turns apart, in the middle of whatever it is doing
+    for case in gen_cases(rng, tier):
+        if rng.random() < 0.3:
+            turns = [rng.choice([0, 1, 2, 3, 5]) for _ in range(5)]
+            case["client"] = [st + [turns] if st[0] == "feed_split" and len(st) == 3 else st for st in case["client"]]
+            case["family"] += ".staggered"
+        yield case
 
 
 def nontrivial(case, obs):
